@@ -106,5 +106,180 @@ func TestGenC12(t *testing.T) {
 			q.stat("fin_after_handshake", 1)
 		}
 	}
-	_ = r
+	// ---- (2) Close at every point of a connection's life ----
+	points := []string{"idle", "send-blocked", "recv-blocked", "mid-resend", "traffic", "both-blocked"}
+	for _, point := range points {
+		for _, who := range []string{"client", "server", "both", "twice", "concurrent"} {
+			for _, transport := range []string{"working", "dead"} {
+				for _, ka := range []bool{false, true} {
+					id++
+					n := r.pick([]int{1, 3, 20})
+					cfg := simCfg{id: fmt.Sprintf("c%d", id), n: uint8(n), static: time.Second}
+					if ka {
+						cfg.ping, cfg.pong = 5*time.Second, 3*time.Second
+					}
+					l.keep = l.keep[:0]
+					l.o.line("BEGIN %s n=%d chunk=0 class=close-%s-%s-%s", cfg.id, n, point, who, transport)
+					pan := bubble(t, func(t *testing.T) {
+						l.start = time.Now()
+						l.last = 0
+						base := runtime.NumGoroutine()
+						s := newSim(t, l, cfg)
+						if !s.cleanHandshake() {
+							q.fail("c12:setup-handshake-failed", cfg.id)
+							s.finish(base)
+							return
+						}
+						deliver := func() {
+							if transport == "dead" {
+								return
+							}
+							for k := 0; k < 20; k++ {
+								moved := false
+								for x := 0; x < 2; x++ {
+									for s.canOp(x) {
+										s.op(x, "deliver")
+										moved = true
+									}
+								}
+								if !moved {
+									return
+								}
+							}
+						}
+						// bring the connection to the chosen point
+						switch point {
+						case "send-blocked", "both-blocked", "mid-resend":
+							for k := 0; k <= n; k++ { // n fill the window, one more blocks
+								if sb, _ := s.busy(0); !sb {
+									s.send(0, []byte{byte(k), 1})
+								}
+							}
+							if point == "both-blocked" {
+								s.recv(0)
+								s.recv(1)
+							}
+							if point == "mid-resend" {
+								s.advance(1200 * time.Millisecond) // the resend has fired, the sync wait is in progress
+							}
+						case "recv-blocked":
+							s.recv(0)
+							s.recv(1)
+						case "traffic":
+							s.recv(1)
+							s.send(0, []byte("abc"))
+							deliver()
+						}
+						// close
+						t0 := time.Now()
+						switch who {
+						case "client":
+							s.closeSide(0)
+						case "server":
+							s.closeSide(1)
+						case "both":
+							s.closeSide(0)
+							s.closeSide(1)
+						case "twice":
+							s.closeSide(0)
+							s.closed[0] = false
+							s.closeSide(0)
+						case "concurrent":
+							s.l.ev("CL 0")
+							s.closed[0] = true
+							for k := 0; k < 3; k++ {
+								s.wg.Add(1)
+								go func() { defer s.wg.Done(); _ = s.conn[0].Close() }()
+							}
+						}
+						deliver()
+						// Close must return within a bounded time (FIN send timeout 1 s)
+						closers := []int{0}
+						if who == "server" {
+							closers = []int{1}
+						} else if who == "both" {
+							closers = []int{0, 1}
+						}
+						s.advance(3 * time.Second)
+						deliver()
+						done := make(chan struct{})
+						go func() { s.wg.Wait(); close(done) }()
+						s.advance(3 * time.Second)
+						returned := false
+						select {
+						case <-done:
+							returned = true
+						default:
+						}
+						desc := func() string {
+							return fmt.Sprintf("scenario %s: point=%s closer=%s transport=%s keepalive=%v n=%d; events %v", cfg.id, point, who, transport, ka, n, lastN(l.keep, 40))
+						}
+						// all calls that were blocked on a closed side have returned
+						for _, x := range closers {
+							sb, rb := s.busy(x)
+							q.check(!sb && !rb, fmt.Sprintf("c12:blocked-call-not-woken:%s", point), desc)
+							// later calls fail
+							if !sb && !rb {
+								err := s.conn[x].Send([]byte("late"))
+								_, err2 := s.conn[x].Recv()
+								q.check(err != nil && err2 != nil, "c12:call-succeeds-after-close", desc)
+							}
+						}
+						_ = returned
+						_ = t0
+						// the peer learns about it when the transport works
+						if transport == "working" && who != "both" {
+							peer := 1 - closers[0]
+							s.advance(2 * time.Second)
+							deliver()
+							s.advance(2 * time.Second)
+							_, rb := s.busy(peer)
+							sbp, _ := s.busy(peer)
+							q.check(!rb && !sbp && isClosedQuick(s, peer), fmt.Sprintf("c12:peer-not-told:%s", point), desc)
+						}
+						for _, g := range s.finish(base) {
+							q.fail("c12:leak:"+g, desc())
+						}
+					})
+					l.o.line("END %s", cfg.id)
+					if pan != "" {
+						q.fail("c12:bubble-panic", cfg.id+": "+truncate(pan, 400))
+					}
+					q.stat("close_scenarios", 1)
+					q.stat("distinct_nontrivial", 1)
+				}
+			}
+		}
+	}
+	// ---- (3) giving up during the handshake: cancelling the context makes the constructors return ----
+	for _, side := range []int{0, 1} {
+		id++
+		cfg := simCfg{id: fmt.Sprintf("x%d", id), n: 3, hsTO: time.Second}
+		l.o.line("BEGIN %s n=3 chunk=0 class=cancel-during-handshake", cfg.id)
+		pan := bubble(t, func(t *testing.T) {
+			l.start = time.Now()
+			l.last = 0
+			base := runtime.NumGoroutine()
+			s := newSim(t, l, cfg)
+			s.startEndpoints(side) // the peer never shows up
+			s.advance(3500 * time.Millisecond)
+			// (NewServerConn returns a nil error when its context is cancelled during the handshake;
+			// the repository's TestServerHandshakeTimeout pins that, so it is not an observation here)
+			s.l.ev("TEARDOWN")
+			s.cancel()
+			s.advance(2 * time.Second)
+			q.check(s.hsReturned(side), "c12:constructor-hangs-after-cancel", func() string {
+				return fmt.Sprintf("side %d: constructor did not return 2 s after its context was cancelled", side)
+			})
+			for _, g := range s.finish(base) {
+				q.fail("c12:leak:"+g, "cancel during handshake")
+			}
+		})
+		l.o.line("END %s", cfg.id)
+		if pan != "" {
+			q.fail("c12:bubble-panic", cfg.id+": "+truncate(pan, 400))
+		}
+		q.stat("distinct_nontrivial", 1)
+	}
+	q.sample("close points {idle, send-blocked, recv-blocked, mid-resend, traffic, both-blocked} x closer {client, server, both, twice, concurrent} x transport {working, dead} x keepalive {off,on}; FIN right after a retried handshake; context cancelled during the handshake")
 }
